@@ -50,7 +50,7 @@ fn plan(name: &str, tier: &str) -> Vec<(Cfg, usize)> {
         "q.c06" => {
             for ordered in [true, false] {
                 let prios: &[i64] = if ordered { &[0, 1] } else { &[0] };
-                for cap in [2usize, 4] {
+                for cap in [1usize, 2, 4] {
                     v.push((cfg(ordered, 2, cap, prios, 0), if t { 9 } else { 7 }));
                 }
                 v.push((cfg(ordered, 3, 2, &[0], 0), if t { 8 } else { 6 }));
@@ -120,6 +120,52 @@ fn bound61(rep: &mut Report, scen: &str, tier: &str) {
                             );
                         }
                     }
+                }
+            }
+        }
+    }
+    // steal-fed variant: L0 is never pushed to, it lives on what it steals from a sibling that is
+    // kept stocked; the shared item must still come back within 61 pops of L0
+    for ordered in [true, false] {
+        for cap in [2usize, 4, 8] {
+            for j in (0..max_j).step_by(if tier == "thorough" { 1 } else { 3 }) {
+                rep.evaluations += 1;
+                let c = cfg(ordered, 2, cap, &[0], 0);
+                let mut h: Vec<Op> = Vec::new();
+                let mut injected_at = None;
+                for k in 0..(j + 62) {
+                    if k == j {
+                        h.push(Op::GPush { p: 0 });
+                        injected_at = Some(h.len() - 1);
+                    }
+                    // keep the sibling stocked (its capacity bounds what it really holds)
+                    h.push(Op::Push { q: 1, p: 0 });
+                    h.push(Op::Pop { q: 0, start: 0 });
+                }
+                let r = run_trace(&c, &h);
+                let inj = injected_at.unwrap();
+                let inj_id = r.push_ids[inj];
+                let mut pops_after = 0;
+                let mut found = None;
+                for (k, op) in h.iter().enumerate().skip(inj + 1) {
+                    if let Op::Pop { q: 0, .. } = op {
+                        pops_after += 1;
+                        if r.rets.get(k).copied().flatten() == Some(inj_id) {
+                            found = Some(pops_after);
+                            break;
+                        }
+                    }
+                }
+                // the sibling's overflow also feeds the shared queue, so older shared items may
+                // be served first; the injected one is identified by its id
+                match found {
+                    Some(n) if n <= 61 => rep.witness("shared_item_returned_to_steal_fed_queue"),
+                    other => rep.violation_for(
+                        "C06",
+                        &format!("{scen}/shared-item-within-61-pops/{}:steal-fed", if ordered { "ordered" } else { "plain" }),
+                        format!("{}: L0 lives on stealing from L1 (kept stocked), shared item injected before pop #{j}: returned after {other:?} pops of L0 (bound 61)", c.to_json()),
+                        json!({"engine":"qsx","scenario":scen,"config":c.to_json(),"history":hist_json(&h),"bound61":{"injected_before_pop":j,"steal_fed":true}}),
+                    ),
                 }
             }
         }
